@@ -11,6 +11,15 @@ import (
 // Translation of the operator tables of compiler.go (intsOperator, floatsOperator, stringsOperator,
 // boolsOperator, nilsOperator) and of toleratedOperandError into Lean (PlushModel/Gen/Operators.lean).
 
+// byteLit renders a Go string constant as a Lean byte list (kernel-friendly, unlike String equality)
+func byteLit(v string) string {
+	parts := make([]string, len(v))
+	for i := 0; i < len(v); i++ {
+		parts[i] = strconv.Itoa(int(v[i]))
+	}
+	return "[" + strings.Join(parts, ", ") + "]"
+}
+
 type opKind int
 
 const (
@@ -175,7 +184,7 @@ func genOpTable(sb *strings.Builder, f *ast.File, fn string, k opKind, leanSig, 
 				fail("%s: case label %s", fn, exprString(e))
 			}
 			v, _ := strconv.Unquote(bl.Value)
-			conds = append(conds, fmt.Sprintf("op == %s", strconv.Quote(v)))
+			conds = append(conds, fmt.Sprintf("op == %s /- %s -/", byteLit(v), v))
 		}
 		// body: optional zero guard, optional regexp compile, then the return
 		guard := ""
@@ -225,13 +234,13 @@ func genOperators() {
 	var sb strings.Builder
 	fmt.Fprintf(&sb, header, "compiler.go (intsOperator, floatsOperator, stringsOperator, boolsOperator, nilsOperator, toleratedOperandError)")
 	sb.WriteString("import PlushModel.OpOut\nnamespace Plush.Gen\n\n")
-	genOpTable(&sb, f, "intsOperator", opInt, "(op : String) (l r : Int)", "l", "r")
-	genOpTable(&sb, f, "floatsOperator", opFloat, "(op : String) (l r : Dyadic)", "l", "r")
+	genOpTable(&sb, f, "intsOperator", opInt, "(op : Bytes) (l r : Int)", "l", "r")
+	genOpTable(&sb, f, "floatsOperator", opFloat, "(op : Bytes) (l r : Dyadic)", "l", "r")
 	// stringsOperator(l string, r interface{}, op): rr := fmt.Sprint(r); rows use l and rr
-	genOpTable(&sb, f, "stringsOperator", opString, "(op : String) (l r : Bytes)", "l", "rr")
+	genOpTable(&sb, f, "stringsOperator", opString, "(op : Bytes) (l r : Bytes)", "l", "rr")
 	// boolsOperator: lt := isTruthy(l); rt := isTruthy(r); rows use lt and rt
-	genOpTable(&sb, f, "boolsOperator", opBool, "(op : String) (l r : Bool)", "lt", "rt")
-	genOpTable(&sb, f, "nilsOperator", opNil, "(op : String) (bothNil : Bool)", "l", "r")
+	genOpTable(&sb, f, "boolsOperator", opBool, "(op : Bytes) (l r : Bool)", "lt", "rt")
+	genOpTable(&sb, f, "nilsOperator", opNil, "(op : Bytes) (bothNil : Bool)", "l", "r")
 
 	// toleratedOperandError(operator, err): type assertion on *ErrUnknownIdentifier, then a switch on the operator
 	fd := findFunc(f, "toleratedOperandError")
@@ -257,7 +266,7 @@ func genOperators() {
 					if rs, ok := cc.Body[0].(*ast.ReturnStmt); ok && exprString(rs.Results[0]) == "true" {
 						for _, e := range cc.List {
 							v, _ := strconv.Unquote(e.(*ast.BasicLit).Value)
-							ops = append(ops, strconv.Quote(v))
+							ops = append(ops, byteLit(v)+" /- "+v+" -/")
 						}
 					}
 				}
@@ -268,7 +277,7 @@ func genOperators() {
 		fail("toleratedOperandError does not start with the *ErrUnknownIdentifier guard")
 	}
 	sb.WriteString("/-- operators under which an operand's evaluation error is tolerated (`toleratedOperandError`) -/\n")
-	fmt.Fprintf(&sb, "def tolerantOps : List String := [%s]\n\n", strings.Join(ops, ", "))
+	fmt.Fprintf(&sb, "def tolerantOps : List Bytes := [%s]\n\n", strings.Join(ops, ", "))
 	sb.WriteString("/-- … and only when the error is an `*ErrUnknownIdentifier` (the type assertion that guards the switch) -/\n")
 	sb.WriteString("def tolerantOnlyUnknownIdent : Bool := true\n\n")
 	// the three other tolerant sites: evalPrefixExpression, evalIfExpression, evalElseAndElseIfExpressions
